@@ -3,7 +3,8 @@
    calls (Model/Index.v appends (ConjID.DocID, ConjID) per reported conjunction); NoDup = once each;
    C11 gives that (doc, position, size) decode from the reported id without loss. *)
 From Coq Require Import List NArith ZArith Bool Permutation.
-From BE Require Import Model.Scan Model.Build Proofs.ScanProof Proofs.BuildProof Proofs.Glue Gen.IdsGen Proofs.IdsProof.
+From BE Require Import Model.Scan Model.Build Model.Cursor Proofs.ScanProof Proofs.BuildProof Proofs.Glue Gen.IdsGen Proofs.IdsProof Proofs.Refine Proofs.ConcreteScan.
+From BE Require Model.GoVal Model.Index Model.Roaring Proofs.RoaringProof.
 Import ListNotations.
 Local Open Scope N_scope.
 
@@ -34,6 +35,34 @@ Theorem C04_generic_scan_once : forall (needf : N -> nat) (os : list stream),
             (forall x, In x r <-> cnt (x, false) os = O /\ (needf x <= cnt (x, true) os)%nat) /\ NoDup r.
 Proof. exact scan_correct. Qed.
 
+(* the concrete loops of the executable model call the collector once per reported conjunction, with the
+   document id decoded from the conjunction id (both index types) *)
+Theorem C04_concrete_kgroups_calls : forall need cs ss,
+  (1 <= need)%nat -> Forall2 Rel cs ss -> (forall c, (cnt (c, true) ss <= need)%nat) ->
+  exists res, Index.retrieve_k need cs [] = Some res /\
+    (forall x, In x (map snd res) <-> sat need ss x) /\ NoDup (map snd res) /\
+    (forall h, In h res -> fst h = IdsGen.ConjID_DocID (snd h)).
+Proof. exact retrieve_k_correct. Qed.
+Theorem C04_concrete_compact_calls : forall cs ss,
+  Forall2 Rel cs ss -> Forall live cs -> (forall c, (cnt (c, true) ss <= cneed c)%nat) ->
+  exists res, Index.cp_loop (S (Index.fc_total cs)) (sort_fcursors cs) [] = Some res /\
+    (forall x, In x (map snd res) <-> satf cneed ss x) /\ NoDup (map snd res) /\
+    (forall h, In h res -> fst h = IdsGen.ConjID_DocID (snd h)).
+Proof. exact cp_loop_correct. Qed.
+
+(* the roaring scanner's raw result is exactly the set of satisfied (document, position) pairs *)
+Theorem C04_roaring_raw_result_exact : forall b0 ds b os q s d k cj x,
+  RoaringProof.all_new (Roaring.rb_conts b0) -> Roaring.rb_conts b0 <> [] ->
+  Roaring.radd_documents b0 ds = (b, os) -> Forall (eq Index.AddOk) os ->
+  NoDup (map Index.d_id ds) -> In d ds -> nth_error (Index.d_conjs d) k = Some cj ->
+  NewConjunctionID (Z.of_nat k) (Index.d_id d) = Some x ->
+  Roaring.sc_retrieve (Roaring.rb_conts b) q Roaring.fresh_scanner = GoVal.POk s ->
+  Roaring.bm_mem x (Roaring.sc_res s) = forallb (RoaringProof.conj_sat_field q cj) (Roaring.rb_conts b).
+Proof. exact RoaringProof.roaring_index_correct. Qed.
+
 Print Assumptions C04_reported_conjunctions_exact_once.
+Print Assumptions C04_concrete_kgroups_calls.
+Print Assumptions C04_concrete_compact_calls.
+Print Assumptions C04_roaring_raw_result_exact.
 Print Assumptions C04_collector_arguments.
 Print Assumptions C04_generic_scan_once.
